@@ -9,8 +9,8 @@
 (*       module-level set the real PDDLWriter aliases);                     *)
 (*   nm  the naming produced by the current writer:                         *)
 (*       [lang, feats, done, hasfresh,                                      *)
-(*        items  : Seq([kind, orig, must, named, name, back, fresh]),       *)
-(*        spaces : Seq([sec, var, multi, free, items : Seq(index)]),        *)
+(*        items  : Seq([kind, orig, named, name, back, fresh]),             *)
+(*        spaces : Seq([sec, var, multi, free, must, items : Seq(index)]),  *)
 (*        text   : Seq([names : Seq(name)])   (aligned with spaces, or <<>>)*)
 (*        tback  : Seq([s, n, ok, rn])]                                     *)
 (*       item.name  = look-up item -> name  (get_pddl_name / harvested)     *)
@@ -99,7 +99,10 @@ Builtin(N, s) == IF N.lang # "pddl" THEN {}
                  ELSE IF N.spaces[s].sec = "types" THEN {OBJECT}
                  ELSE IF N.spaces[s].sec = "fluents" THEN {TOTALCOST} ELSE {}
 
-Named(N) == {<<"Named", i, Det(N, i)>> : i \in {j \in DOMAIN N.items : N.done /\ N.items[j].must /\ ~N.items[j].named}}
+\* a namespace with `must` is one all of whose elements are always emitted (types, objects, fluents and
+\* their signatures; the PDDL writer omits actions whose preconditions are trivially false)
+MustItem(N, i) == \E k \in DOMAIN N.spaces : N.spaces[k].must /\ i \in Rng(N.spaces[k].items)
+Named(N) == {<<"Named", i, Det(N, i)>> : i \in {j \in DOMAIN N.items : N.done /\ MustItem(N, j) /\ ~N.items[j].named}}
 Valid(N) == {<<"Valid", i, Det(N, i)>> : i \in {j \in DOMAIN N.items :
                 N.items[j].named /\ ~ValidName(N.lang, IsVar(N.items[j]), N.items[j].name)}}
 NotKeyword(K, N) == {<<"NotKeyword", i, Det(N, i)>> : i \in {j \in DOMAIN N.items :
@@ -126,7 +129,7 @@ TextAgrees(N) == {<<"TextAgrees", k, <<N.spaces[k].sec>> >> : k \in {s \in DOMAI
                 /\ LET H == Rng(N.text[s].names)
                        S == Rng(N.spaces[s].items)
                    IN ~ /\ (H \ Builtin(N, s)) \subseteq NamesOf(N, S)
-                        /\ (NamesOf(N, {i \in S : N.items[i].must}) \ Builtin(N, s)) \subseteq H}}
+                        /\ ((IF N.spaces[s].must THEN NamesOf(N, S) ELSE {}) \ Builtin(N, s)) \subseteq H}}
 \* tback[r] = [s (section), n, ok, rn]
 TextInverse(N) == {<<"TextInverse", q, <<N.spaces[N.tback[q].s].sec>> >> : q \in {r \in DOMAIN N.tback :
                 /\ N.tback[r].n \notin Builtin(N, N.tback[r].s)
